@@ -22,16 +22,9 @@ structure Inv2 (s : State) : Prop where
   /-- on-demand static source: held requests always have the start timer running -/
   b2 : s.conf.odStatic = true → Holding s → s.odSrc = .waiting
 
-/-- on-demand publisher: held requests have the start timer running — NOT an invariant of the code
-(finding `hold-no-timer`), it survives every step except a "late demand" (see `lateDemand`). -/
+/-- on-demand publisher: held requests always have the start timer running (since the fix of finding
+F-C19 `hold-no-timer`, upstream 316e99c: a request held while the automaton is `ready`/`closing` re-arms it) -/
 def HoldPubOK (s : State) : Prop := s.conf.odStatic = false → Holding s → s.odPub = .waiting
-
-/-- a request arriving while the on-demand publisher has gone away but the automaton is still in
-`ready`/`closing`: the request is held although neither a start timer is armed nor anything started. -/
-def lateDemand (s : State) (e : Event) : Bool :=
-  (match e with | .describe _ => true | .addReader _ _ => true | _ => false) &&
-  !s.closed && !s.stream.isSome && !s.conf.odStatic && s.conf.odPub &&
-  (s.odPub == .ready || s.odPub == .closing)
 
 /-- split `Inv2` into its fields and let `grind` discharge each -/
 macro "inv2_fields" : tactic => `(tactic| (constructor <;> (try unfold Holding) <;> grind))
@@ -180,16 +173,16 @@ theorem inv2_doRemovePublisher (p : Nat) (w : W) (hi : Inv w.s) (h : Inv2 w.s) :
 
 theorem inv2_doDescribe (rid : Nat) (w : W) (hi : Inv w.s) (h : Inv2 w.s) (hc : w.s.closed = false) :
     Inv2 (doDescribe rid w).s ∧
-    (HoldPubOK w.s → lateDemand w.s (.describe rid) = false → HoldPubOK (doDescribe rid w).s) := by
+    (HoldPubOK w.s → HoldPubOK (doDescribe rid w).s) := by
   unfold doDescribe
   have hv := odStatic_iff w.s.conf
   have hval := hi.valid
   unfold Conf.valid at hval
   have hq : w.s.conf.odPub = w.s.conf.runOnDemand := rfl
   split
-  · exact ⟨h, fun a _ => a⟩
+  · exact ⟨h, fun a => a⟩
   split
-  · rw [replyStream_s]; exact ⟨h, fun a _ => a⟩
+  · rw [replyStream_s]; exact ⟨h, fun a => a⟩
   split
   · simp only [upd_s, holdDemand_s]
     have hne : w.s.descHold ++ [rid] ≠ [] := by simp
@@ -204,19 +197,17 @@ theorem inv2_doDescribe (rid : Nat) (w : W) (hi : Inv w.s) (h : Inv2 w.s) (hc : 
     have ho2 := hod w.s.odPub
     constructor
     · cases hi; cases h; unfold Holding at *; inv2_fields
-    · unfold HoldPubOK lateDemand Holding
+    · unfold HoldPubOK Holding
       cases hi; cases h; unfold Holding at *
-      simp only [hc, Bool.not_false, Bool.true_and, Bool.and_true]
-      intro hp hl
-      simp [hsn] at hl
+      intro hp
       grind
   split
-  · exact ⟨h, fun a _ => a⟩
-  · exact ⟨h, fun a _ => a⟩
+  · exact ⟨h, fun a => a⟩
+  · exact ⟨h, fun a => a⟩
 
 theorem inv2_doAddReader (rid r : Nat) (w : W) (hi : Inv w.s) (h : Inv2 w.s) (hc : w.s.closed = false) :
     Inv2 (doAddReader rid r w).s ∧
-    (HoldPubOK w.s → lateDemand w.s (.addReader rid r) = false → HoldPubOK (doAddReader rid r w).s) := by
+    (HoldPubOK w.s → HoldPubOK (doAddReader rid r w).s) := by
   unfold doAddReader
   have hv := odStatic_iff w.s.conf
   have hval := hi.valid
@@ -225,7 +216,7 @@ theorem inv2_doAddReader (rid r : Nat) (w : W) (hi : Inv w.s) (h : Inv2 w.s) (hc
   split
   · rename_i hs
     have hn : ¬ Holding w.s := fun hh => by have := h.b1 hh; rw [this] at hs; cases hs
-    exact ⟨inv2_rdstep hi h (addReaderPost_rd ..), fun a _ => holdPub_rdstep a (addReaderPost_rd ..) hn⟩
+    exact ⟨inv2_rdstep hi h (addReaderPost_rd ..), fun a => holdPub_rdstep a (addReaderPost_rd ..) hn⟩
   split
   · simp only [upd_s, holdDemand_s]
     have hne : w.s.readHold ++ [(rid, r)] ≠ [] := by simp
@@ -240,13 +231,11 @@ theorem inv2_doAddReader (rid r : Nat) (w : W) (hi : Inv w.s) (h : Inv2 w.s) (hc
     have ho2 := hod w.s.odPub
     constructor
     · cases hi; cases h; unfold Holding at *; inv2_fields
-    · unfold HoldPubOK lateDemand Holding
+    · unfold HoldPubOK Holding
       cases hi; cases h; unfold Holding at *
-      simp only [hc, Bool.not_false, Bool.true_and, Bool.and_true]
-      intro hp hl
-      simp [hsn] at hl
+      intro hp
       grind
-  · exact ⟨h, fun a _ => a⟩
+  · exact ⟨h, fun a => a⟩
 
 theorem inv2_doRemoveReader (r : Nat) (w : W) (hi : Inv w.s) (h : Inv2 w.s) (hc : w.s.closed = false) :
     Inv2 (doRemoveReader r w).s ∧ (HoldPubOK w.s → HoldPubOK (doRemoveReader r w).s) := by
@@ -355,43 +344,43 @@ theorem inv2_doClose (w : W) (hi : Inv w.s) (h : Inv2 w.s) :
   · unfold HoldPubOK Holding; grind
 
 theorem inv2_stepW (e : Event) (w : W) (hi : Inv w.s) (h : Inv2 w.s) :
-    Inv2 (stepW e w).s ∧ (HoldPubOK w.s → lateDemand w.s e = false → HoldPubOK (stepW e w).s) := by
+    Inv2 (stepW e w).s ∧ (HoldPubOK w.s → HoldPubOK (stepW e w).s) := by
   unfold stepW
   split
-  · exact ⟨h, fun a _ => a⟩
+  · exact ⟨h, fun a => a⟩
   split
   · unfold stepClosed
     split <;> first
-      | exact ⟨h, fun a _ => a⟩
-      | (simp only [upd_s]; exact ⟨by cases h; unfold Holding at *; inv2_fields, fun a _ => by unfold HoldPubOK Holding at *; grind⟩)
+      | exact ⟨h, fun a => a⟩
+      | (simp only [upd_s]; exact ⟨by cases h; unfold Holding at *; inv2_fields, fun a => by unfold HoldPubOK Holding at *; grind⟩)
   rename_i hp hcl
   have hc : w.s.closed = false := by simpa using hcl
   split
   · rw [closeCheck_s]; exact inv2_doDescribe _ _ hi h hc
-  · rw [closeCheck_s]; exact ⟨(inv2_doAddPublisher _ _ _ hi h hc).1, fun a _ => (inv2_doAddPublisher _ _ _ hi h hc).2 a⟩
-  · rw [closeCheck_s]; exact ⟨(inv2_doRemovePublisher _ _ hi h).1, fun a _ => (inv2_doRemovePublisher _ _ hi h).2 a⟩
+  · rw [closeCheck_s]; exact ⟨(inv2_doAddPublisher _ _ _ hi h hc).1, fun a => (inv2_doAddPublisher _ _ _ hi h hc).2 a⟩
+  · rw [closeCheck_s]; exact ⟨(inv2_doRemovePublisher _ _ hi h).1, fun a => (inv2_doRemovePublisher _ _ hi h).2 a⟩
   · rw [closeCheck_s]; exact inv2_doAddReader _ _ _ hi h hc
-  · rw [closeCheck_s]; exact ⟨(inv2_doRemoveReader _ _ hi h hc).1, fun a _ => (inv2_doRemoveReader _ _ hi h hc).2 a⟩
+  · rw [closeCheck_s]; exact ⟨(inv2_doRemoveReader _ _ hi h hc).1, fun a => (inv2_doRemoveReader _ _ hi h hc).2 a⟩
   · split
-    · exact ⟨(inv2_srcReady _ _ hi h hc ‹_›).1, fun a _ => (inv2_srcReady _ _ hi h hc ‹_›).2 a⟩
-    · exact ⟨h, fun a _ => a⟩
+    · exact ⟨(inv2_srcReady _ _ hi h hc ‹_›).1, fun a => (inv2_srcReady _ _ hi h hc ‹_›).2 a⟩
+    · exact ⟨h, fun a => a⟩
   · split
-    · rw [closeCheck_s]; exact ⟨(inv2_srcNotReady _ hi h hc ‹_›).1, fun a _ => (inv2_srcNotReady _ hi h hc ‹_›).2 a⟩
-    · exact ⟨h, fun a _ => a⟩
+    · rw [closeCheck_s]; exact ⟨(inv2_srcNotReady _ hi h hc ‹_›).1, fun a => (inv2_srcNotReady _ hi h hc ‹_›).2 a⟩
+    · exact ⟨h, fun a => a⟩
   · split
-    · exact ⟨(inv2_fireTimer _ _ hi h hc ‹_›).1, fun a _ => (inv2_fireTimer _ _ hi h hc ‹_›).2 a⟩
-    · exact ⟨h, fun a _ => a⟩
+    · exact ⟨(inv2_fireTimer _ _ hi h hc ‹_›).1, fun a => (inv2_fireTimer _ _ hi h hc ‹_›).2 a⟩
+    · exact ⟨h, fun a => a⟩
   · split
     · rename_i rx hvv
       simp only [upd_s]
       have := odStatic_regexp w.s.conf rx
       have := odPub_regexp w.s.conf rx
-      exact ⟨by cases h; unfold Holding at *; inv2_fields, fun a _ => by unfold HoldPubOK Holding at *; grind⟩
-    · exact ⟨h, fun a _ => a⟩
-  · exact ⟨(inv2_doClose _ hi h).1, fun _ _ => (inv2_doClose _ hi h).2⟩
-  · exact ⟨h, fun a _ => a⟩
+      exact ⟨by cases h; unfold Holding at *; inv2_fields, fun a => by unfold HoldPubOK Holding at *; grind⟩
+    · exact ⟨h, fun a => a⟩
+  · exact ⟨(inv2_doClose _ hi h).1, fun _ => (inv2_doClose _ hi h).2⟩
+  · exact ⟨h, fun a => a⟩
   · simp only [upd_s]
-    exact ⟨by cases h; unfold Holding at *; inv2_fields, fun a _ => by unfold HoldPubOK Holding at *; grind⟩
+    exact ⟨by cases h; unfold Holding at *; inv2_fields, fun a => by unfold HoldPubOK Holding at *; grind⟩
 
 theorem inv2_init (c : Conf) : Inv2 (init c) ∧ HoldPubOK (init c) := by
   unfold init initW HoldPubOK
@@ -407,20 +396,14 @@ theorem inv2_run (es : List Event) : ∀ s, Inv s → Inv2 s → Inv2 (run s es)
 theorem inv2_reach (c : Conf) (hv : c.valid = true) (es : List Event) : Inv2 (run (init c) es).1 :=
   inv2_run es _ (inv_init c hv) (inv2_init c).1
 
-/-- no event of the history is a late demand (checked along the run) -/
-def noLateDemand : State → List Event → Bool
-  | _, [] => true
-  | s, e :: es => !lateDemand s e && noLateDemand (step s e).1 es
-
-theorem holdPub_run (es : List Event) : ∀ s, Inv s → Inv2 s → HoldPubOK s → noLateDemand s es = true →
-    HoldPubOK (run s es).1 := by
+theorem holdPub_run (es : List Event) : ∀ s, Inv s → Inv2 s → HoldPubOK s → HoldPubOK (run s es).1 := by
   induction es with
-  | nil => intro s _ _ h _; exact h
+  | nil => intro s _ _ h; exact h
   | cons e es ih =>
-    intro s hi h hp hn
-    unfold noLateDemand at hn
-    simp only [Bool.and_eq_true, Bool.not_eq_true'] at hn
-    exact ih _ (inv_step s e hi) (inv2_stepW e { s := s } hi h).1
-      ((inv2_stepW e { s := s } hi h).2 hp hn.1) hn.2
+    intro s hi h hp
+    exact ih _ (inv_step s e hi) (inv2_stepW e { s := s } hi h).1 ((inv2_stepW e { s := s } hi h).2 hp)
+
+theorem holdPub_reach (c : Conf) (hv : c.valid = true) (es : List Event) : HoldPubOK (run (init c) es).1 :=
+  holdPub_run es _ (inv_init c hv) (inv2_init c).1 (inv2_init c).2
 
 end MtxVerif.PathSM
